@@ -139,6 +139,8 @@ impl OptimisingLineFormatter {
         // Avoid reformatting the same parent line many times.
         lines_to_reflow.sort_by_key(|line| line.0);
         lines_to_reflow.dedup_by_key(|line| line.0);
+        #[cfg(feature = "verif_hooks")]
+        crate::verif::step("reflow_start", &[lines_to_reflow.len() as i64]);
 
         for line in lines_to_reflow {
             if let Some(solution) = olf.format_line(line) {
@@ -341,6 +343,14 @@ impl<'this> InternalOptimisingLineFormatter<'this, '_> {
 
         optimal_solution
             .inspect_err(|err| {
+                #[cfg(feature = "verif_hooks")]
+                crate::verif::step(
+                    "wrap_unsolved",
+                    &[
+                        line.0 as i64,
+                        matches!(err, FormattingSolutionError::IterationLimitReached) as i64,
+                    ],
+                );
                 error!(
                     "{} for\n{:?}",
                     match err {
@@ -537,6 +547,8 @@ impl<'this> InternalOptimisingLineFormatter<'this, '_> {
             if node.next_line_index as usize >= line.1.get_tokens().len() {
                 let solution = node.into();
                 self.solution_debugging(line, &node_heap, iteration_count, &solution);
+                #[cfg(feature = "verif_hooks")]
+                crate::verif::tally("search_iterations", iteration_count as i64);
                 return Ok(solution);
             }
             if node.penalty > best_penalties[(node.next_line_index - 1) as usize] {
@@ -1090,6 +1102,8 @@ impl<'this> InternalOptimisingLineFormatter<'this, '_> {
                 child_line_option: option,
             };
             if let Some(sol) = self.child_line_cache.borrow().get(&cache_key) {
+                #[cfg(feature = "verif_hooks")]
+                crate::verif::cache_hit(&cache_key, line_parent.line_index);
                 return Some(sol.clone());
             }
 
@@ -1126,6 +1140,8 @@ impl<'this> InternalOptimisingLineFormatter<'this, '_> {
                 child_solutions.push(child_solution);
             }
 
+            #[cfg(feature = "verif_hooks")]
+            crate::verif::cache_insert(&cache_key);
             self.child_line_cache
                 .borrow_mut()
                 .insert(cache_key, child_solutions.clone());
